@@ -65,6 +65,35 @@ func valueClass(r *rand.Rand, class int, shape []int) (*ref.T, string) {
 			t.Data[i] *= math.Pow(10, float64(r.Intn(9)-4)*75)
 		}
 		return t, "magnitudes"
+	case 5: // value PATTERNS rather than generic values
+		t := ref.Zeros(shape)
+		pat := r.Intn(6)
+		for i := range t.Data {
+			switch pat {
+			case 0: // all equal
+				t.Data[i] = 1.25
+			case 1: // sorted ascending
+				t.Data[i] = float64(i) - float64(len(t.Data))/2
+			case 2: // sorted descending
+				t.Data[i] = float64(len(t.Data))/2 - float64(i)
+			case 3: // exact powers of two with alternating signs
+				t.Data[i] = math.Ldexp(1, (i%40)-20)
+				if i%2 == 1 {
+					t.Data[i] = -t.Data[i]
+				}
+			case 4: // denormals
+				t.Data[i] = float64(1+i%7) * 5e-324 * float64(1+i%3)
+			default: // the largest finite magnitudes
+				t.Data[i] = math.MaxFloat64 / float64(1+i%5)
+				if i%3 == 0 {
+					t.Data[i] = -t.Data[i]
+				}
+			}
+		}
+		if n := len(t.Data); n > 2 && r.Intn(2) == 0 {
+			t.Data[r.Intn(n)] = 0 // a single zero at one position
+		}
+		return t, []string{"all-equal", "ascending", "descending", "powers-of-two", "denormals", "max-finite"}[pat]
 	case 4: // distinct values far below the library's equality tolerance (ordering must still be exact)
 		t := UniqueInts(r, shape)
 		for i := range t.Data {
@@ -82,7 +111,7 @@ func runC03(c *fw.Ctx) {
 	// ---- unary operations ----
 	for _, shape := range shapes {
 		for _, in := range c03Unary {
-			for class := 0; class < 4; class++ {
+			for _, class := range []int{0, 1, 2, 3, 5} {
 				shape, in, class := shape, in, class
 				c.Case(func(k *fw.K) {
 					x, cname := valueClass(k.Rng, class, shape)
@@ -103,7 +132,7 @@ func runC03(c *fw.Ctx) {
 	// ---- same-shape binary operations, comparisons, Equals ----
 	for _, shape := range shapes {
 		for _, op := range c03Same {
-			for class := 0; class < 5; class++ {
+			for class := 0; class < 6; class++ {
 				if class == 3 || (class == 4 && (op == "eq" || op == "ne")) {
 					continue // Eq/Ne are specified only for identical or clearly different values
 				}
@@ -115,7 +144,9 @@ func runC03(c *fw.Ctx) {
 					for i := range a.Data {
 						if k.Rng.Intn(3) == 0 {
 							b.Data[i] = a.Data[i]
-						} else if class != 4 && math.Abs(a.Data[i]-b.Data[i]) < 1e-3 {
+						} else if class == 5 && (op == "eq" || op == "ne") && a.Data[i] != b.Data[i] && math.Abs(a.Data[i]-b.Data[i]) < 1e-3 {
+							b.Data[i] = a.Data[i] // denormal patterns: Eq/Ne only for identical or clearly different values
+						} else if class < 4 && math.Abs(a.Data[i]-b.Data[i]) < 1e-3 {
 							b.Data[i] = a.Data[i] + 1
 						}
 					}
@@ -348,7 +379,7 @@ func c03Equals(k *fw.K, a, b *ref.T) {
 		// a single differing element anywhere must flip it
 		c := a.Clone()
 		pos := k.Rng.Intn(len(c.Data))
-		c.Data[pos] += 0.5
+		c.Data[pos] = c.Data[pos]*0.5 + 3 // clearly different whatever the magnitude (adding 0.5 to 1e308 changes nothing)
 		check(ra, rt.MustLeaf(c, false), false, fmt.Sprintf("one element differs at %v", ref.Unravel(pos, a.Shape)))
 		k.Count("equals_checks", 1)
 	}
